@@ -16,6 +16,8 @@ WORLDS = {
     "W4r": dict(keys="W4Keys", files="W4Files", scripts="W4Scripts", srcs="W4Srcs", ops="W4rOps", hasr=True),
     "W4d": dict(keys="W4Keys", files="W4Files", scripts="W4Scripts", srcs="W4Srcs", ops="W4dOps", hasr=True),
     "W5":  dict(keys="W5Keys", files="W5Files", scripts="W5Scripts", srcs="W5Srcs", ops="W5Ops", hasr=True, dirsu='{"d.e"}'),
+    "W5f": dict(keys="W5Keys", files="W5Files", scripts="W5Scripts", srcs="W5fSrcs", ops="W5fOps", hasr=True, dirsu='{"d.e"}'),
+    "W5c": dict(keys="W5Keys", files="W5Files", scripts="W5Scripts", srcs="W5fSrcs", ops="W5fOps", hasr=False, dirsu='{"d.e"}'),
     "W6":  dict(keys="W6Keys", files="W6Files", scripts="W6Scripts", srcs="W6Srcs", ops="W6Ops", hasr=True),
     "W6c": dict(keys="W6Keys", files="W6Files", scripts="W6Scripts", srcs="W6Srcs", ops="W6Ops", hasr=False),
     "W7":  dict(keys="W7Keys", files="W7Files", scripts="W7Scripts", srcs="W7Srcs", ops="W7Ops", hasr=False),
